@@ -4,9 +4,22 @@
    ChecksumFile.ReadAt with len(b)=len, cap(b)=cap; write_at/append/size_of/scrub transcribe WriteAt/append/
    Size/Scrub; run_ck / run_plain run an op sequence on the checksummed file / on an ordinary file. *)
 From Coq Require Import List NArith ZArith.
-From BLB Require Import Lib.CRC C08.CRCTab C08.Model C08.Proofs C08.Proofs2.
+From BLB Require Import Lib.CRC C08.CRCTab C08.Model C08.Proofs C08.Proofs2 C08.Refine C08.Refine2.
 Import ListNotations.
 Open Scope N_scope.
+
+(* [FULL] the first sentence of the property, no carve-out. For EVERY operation sequence without raw tampering, made
+   of WriteAt, ReadAt with any spare capacity, Seek, Read, Write, Size, Scrub, Reopen in any order with any offsets,
+   lengths and data, run on the model of the repaired code from an empty file, every result, that is count, error
+   class, returned bytes, size, returned and resulting cursor, equals the result of the same sequence on an ordinary
+   file whose holes read as zeros, the user content abs of the final raw file equals the ordinary file's content,
+   and the final raw file is sound, Inv_raw, every block is non-empty data followed by its little-endian CRC-32C.
+   Since every prefix of a sequence is a sequence, content equality and Inv_raw hold after every step *)
+Theorem ckfile_refines_plain :
+  forall ops, no_tamper ops ->
+    refines_plain ops /\ Inv_raw (ck_raw (fst (run_ck init_ck ops))).
+Proof. intros ops H. destruct (refines_plain_lemma ops H) as (H1 & H2 & _). exact (conj H1 H2). Qed.
+Print Assumptions ckfile_refines_plain.
 
 (* [FULL] the in-place fast path of ReadAt, taken when the read is block aligned and the caller's buffer has spare
    capacity of at least blockLength, returns the same bytes b[0..n), hence the same count, and the same error as the
@@ -35,20 +48,17 @@ Print Assumptions ckfile_truncation.
    little-endian CRC-32C, block k exists, and r' differs from r by ONE burst of at most 32 bits anywhere in the stored
    bytes of block k, data or checksum or straddling both, all other blocks untouched. Then every ReadAt that touches
    block k, wherever it starts, with or without spare capacity, returns the corruption error together with exactly
-   the sound bytes the file holds from off up to the start of block k, that is n = k x blockDataLength - off bytes
-   given as the data portions of the untouched verified blocks, and no byte of block k. Every ReadAt that does not
-   touch block k returns exactly what it returned on r. Scrub reports corruption. Built on
-   Lib.CRCProofs.crc_detects_burst_raw. The bytes are characterised through blocks_data, the data portions readBlock
-   delivers for the blocks of r, their identification with the plain content abs r belongs to the refinement theorem
-   listed under not_yet_proved *)
+   the bytes of the logical content abs r from off up to the start of block k, n = k x blockDataLength - off of them,
+   so no byte of block k and no altered byte. Every ReadAt that does not touch block k returns exactly what it
+   returned on r. Scrub reports corruption. Built on Lib.CRCProofs.crc_detects_burst_raw. By ckfile_refines_plain
+   every file the code produces satisfies Inv_raw and abs r is the ordinary file's content *)
 Theorem ckfile_detects_burst :
   forall r r' k,
     Inv_raw r -> HL + BL * k < lenN r -> burst_in_block r r' k ->
     (forall off len cap, touches k off len ->
-        read_at r' off len cap =
-          (drop (off mod DL) (blocks_data r (off / DL) (N.to_nat (k - off / DL))), E_CORRUPT) /\
+        read_at r' off len cap = (take (k * DL - off) (drop off (abs r)), E_CORRUPT) /\
         lenN (fst (read_at r' off len cap)) = k * DL - off) /\
     (forall off len cap, ~ touches k off len -> read_at r' off len cap = read_at r off len cap) /\
     snd (scrub r') = E_CORRUPT.
-Proof. exact detects_burst_inv_lemma. Qed.
+Proof. exact detects_burst_abs_lemma. Qed.
 Print Assumptions ckfile_detects_burst.
